@@ -46,6 +46,8 @@ pub struct TrieEntryIter<'a> {
 impl<'a> TrieEntryIter<'a> {
     #[inline(always)]
     fn get(&self, index: usize) -> u32 {
+        #[cfg(feature = "verif")]
+        crate::verif::trie_access(index, self.trie.len());
         debug_assert!(index < self.trie.len());
         // UB if out of bounds
         // Should we panic in release builds here instead?
@@ -120,6 +122,8 @@ impl<'a> Trie<'a> {
 
     #[inline(always)]
     fn get(&self, index: usize) -> u32 {
+        #[cfg(feature = "verif")]
+        crate::verif::trie_access(index, self.array.len());
         debug_assert!(index < self.array.len());
         // UB if out of bounds
         // Should we panic in release builds here instead?
